@@ -326,6 +326,9 @@ func (j *join[T]) dump() CollectionDump {
 // nolint: unused // (not true)
 type joinIndexer[T any] struct {
 	indexers []indexer[T]
+	// owned, if set, reports whether the object is the one the join holds for its key. It is set in checked mode,
+	// where an object of a lower-priority collection can be shadowed by another collection.
+	owned func(o T) bool
 }
 
 // nolint: unused // (not true)
@@ -342,7 +345,15 @@ func (j joinIndexer[T]) Lookup(key string) []T {
 			res = append(res, l...)
 		}
 	}
-	return res
+	if j.owned == nil {
+		return res
+	}
+	// Only keep the objects the join actually holds: an object of a sub-collection whose key is owned by a
+	// higher-priority collection is not part of the join, whether or not the owner matches the index key.
+	seen := sets.NewWithLength[string](len(res))
+	return slices.FilterInPlace(res, func(o T) bool {
+		return j.owned(o) && !seen.InsertContains(GetKey(o))
+	})
 }
 
 // nolint: unused // (not true, its to implement an interface)
@@ -350,6 +361,12 @@ func (j *join[T]) index(name string, extract func(o T) []string) indexer[T] {
 	ji := joinIndexer[T]{indexers: make([]indexer[T], 0, len(j.collections))}
 	for _, c := range j.collections {
 		ji.indexers = append(ji.indexers, c.index(name, extract))
+	}
+	if !j.uncheckedOverlap {
+		ji.owned = func(o T) bool {
+			cur := j.GetKey(GetKey(o))
+			return cur != nil && Equal(*cur, o)
+		}
 	}
 	return ji
 }
